@@ -401,11 +401,11 @@ class InclusiveMulticastEthernetTag(EVPN):
         value_hex += cls.construct_rd(value['rd'])
         value_hex += struct.pack('!I', value['eth_tag_id'])
         # ip address len and address
-        if value.get('ip'):
-            ip_hex = netaddr.IPAddress(value['ip']).packed
-            value_hex += struct.pack('!B', len(ip_hex) * 8) + ip_hex
-        else:
-            value_hex += b'\x00'
+        # the originating router's address is mandatory: length 32 or 128 (RFC 7432 7.3, 7.4)
+        if not value.get('ip'):
+            raise ValueError('EVPN route type %s needs the originating router IP address' % cls.__name__)
+        ip_hex = netaddr.IPAddress(value['ip']).packed
+        value_hex += struct.pack('!B', len(ip_hex) * 8) + ip_hex
         return value_hex
 
 
@@ -446,11 +446,11 @@ class EthernetSegment(EVPN):
         # esi
         value_hex += cls.construct_esi(value['esi'])
         # ip address len and address
-        if value.get('ip'):
-            ip_hex = netaddr.IPAddress(value['ip']).packed
-            value_hex += struct.pack('!B', len(ip_hex) * 8) + ip_hex
-        else:
-            value_hex += b'\x00'
+        # the originating router's address is mandatory: length 32 or 128 (RFC 7432 7.3, 7.4)
+        if not value.get('ip'):
+            raise ValueError('EVPN route type %s needs the originating router IP address' % cls.__name__)
+        ip_hex = netaddr.IPAddress(value['ip']).packed
+        value_hex += struct.pack('!B', len(ip_hex) * 8) + ip_hex
         return value_hex
 
 
